@@ -1207,6 +1207,8 @@ def _expand(world, token):
                 return world.root + rest
             if sp == "abs_slash":
                 return world.root + (rest if rest else "/")
+            if sp == "abs_dslash":
+                return world.root + (rest if rest else "//")
             name = world.spec["rootname"]
             if sp == "rel":  # cwd = mount
                 return name + rest
@@ -1230,6 +1232,17 @@ def _default_cwd(world):
 
 
 World.default_cwd = _default_cwd
+
+
+def _abs_of(world, token, cwd=None):
+    """absolute, normalised path a command-line token denotes (relative spellings are relative to the command's cwd)"""
+    p = _expand(world, token)
+    if not os.path.isabs(p):
+        p = os.path.join(_expand(world, cwd) if cwd else world.default_cwd(), p)
+    return os.path.normpath(p)
+
+
+World.abs_of = _abs_of
 
 
 def _env_path(world, p):
